@@ -130,8 +130,8 @@ theorem oFile_loads : ∃ L, loadDoc oFile = .ok L ∧ L.version = sVer ∧ L.xr
       · injection hke with hke; subst hke; trivial
       · split at hke
         · rename_i hk; subst hk; injection hke with hke; subst hke
-          refine ⟨rfl, Or.inr ⟨oDict, oContent, rfl, by decide, [], oObj, [10] ++ (xObj ++ xAfter), 4, 1, by decide, .nil,
-            oObj_derives, rfl, rfl, rfl, rfl, oContent_derives, by simp [oCont], by simp [oCont]⟩⟩
+          refine ⟨rfl, Or.inr (Or.inl ⟨oDict, oContent, rfl, by decide, [], oObj, [10] ++ (xObj ++ xAfter), 4, 1, by decide, .nil,
+            oObj_derives, rfl, rfl, rfl, rfl, oContent_derives, by simp [oCont], by simp [oCont]⟩)⟩
         · split at hke
           · rename_i hk; subst hk; injection hke with hke; subst hke
             refine ⟨rfl, Or.inl ⟨⟨by decide, [], xObj, xAfter, by decide, .nil, xObj_derives, ?_⟩, rfl⟩⟩
